@@ -106,4 +106,32 @@ theorem src_offset_mod_rs_fn_from_utc_datetime : C04_src_offset_mod_rs_fn_from_u
 theorem src_offset_mod_rs_fn_with_ymd_and_hms : C04_src_offset_mod_rs_fn_with_ymd_and_hms =
     ["&", "self", "v1", "i32", "v2", "u32", "v3", "u32", "v4", "u32", "v5", "u32", "v6", "u32", "->", "MappedLocalTime", "<", "DateTime", "<", "Self", ">>", "match", "NaiveDate", "from_ymd_opt(", "v1", "v2", "v3", "and_then(", "|", "v7", "|", "v7", "and_hms_opt(", "v4", "v5", "v6", "Some(", "v8", "=>", "self", "from_local_datetime(", "&", "v8", "None", "=>", "MappedLocalTime", "None"] := by decide +kernel
 
+/-- callee src/datetime/mod.rs:fn from_naive_utc_and_offset -/
+theorem callee_src_datetime_mod_rs_fn_from_naive_utc_and_offset : C04_callee_src_datetime_mod_rs_fn_from_naive_utc_and_offset =
+    ["v1", "NaiveDateTime", "v2", "Tz", "Offset", "->", "DateTime", "<", "Tz", ">", "DateTime", "v1", "v2"] := by decide +kernel
+
+/-- callee src/naive/date/mod.rs:fn from_mdf -/
+theorem callee_src_naive_date_mod_rs_fn_from_mdf : C04_callee_src_naive_date_mod_rs_fn_from_mdf =
+    ["v1", "i32", "v2", "Mdf", "->", "Option", "<", "NaiveDate", ">", "if", "v1", "<", "MIN_YEAR", "||", "v1", ">", "MAX_YEAR", "return", "None", "Some(", "NaiveDate", "from_yof(", "v1", "<<", "13", "|", "try_opt!(", "v2", "ordinal_and_flags("] := by decide +kernel
+
+/-- callee src/naive/date/mod.rs:fn from_ymd_opt -/
+theorem callee_src_naive_date_mod_rs_fn_from_ymd_opt : C04_callee_src_naive_date_mod_rs_fn_from_ymd_opt =
+    ["v1", "i32", "v2", "u32", "v3", "u32", "->", "Option", "<", "NaiveDate", ">", "v4", "YearFlags", "from_year(", "v1", "if", "Some(", "v5", "Mdf", "new(", "v2", "v3", "v4", "NaiveDate", "from_mdf(", "v1", "v5", "else", "None"] := by decide +kernel
+
+/-- callee src/naive/datetime/mod.rs:fn and_local_timezone -/
+theorem callee_src_naive_datetime_mod_rs_fn_and_local_timezone : C04_callee_src_naive_datetime_mod_rs_fn_and_local_timezone =
+    ["<", "Tz", "TimeZone", ">", "&", "self", "v1", "Tz", "->", "MappedLocalTime", "<", "DateTime", "<", "Tz", ">>", "v1", "from_local_datetime(", "self"] := by decide +kernel
+
+/-- callee src/naive/internals.rs:fn from_year -/
+theorem callee_src_naive_internals_rs_fn_from_year : C04_callee_src_naive_internals_rs_fn_from_year =
+    ["v1", "i32", "->", "YearFlags", "v1", "v1", "rem_euclid(", "400", "YearFlags", "from_year_mod_400(", "v1"] := by decide +kernel
+
+/-- callee src/naive/internals.rs:fn from_year_mod_400 -/
+theorem callee_src_naive_internals_rs_fn_from_year_mod_400 : C04_callee_src_naive_internals_rs_fn_from_year_mod_400 =
+    ["v1", "i32", "->", "YearFlags", "YEAR_TO_FLAGS", "v1", "as", "usize"] := by decide +kernel
+
+/-- callee src/naive/internals.rs:fn ordinal_and_flags -/
+theorem callee_src_naive_internals_rs_fn_ordinal_and_flags : C04_callee_src_naive_internals_rs_fn_ordinal_and_flags =
+    ["&", "self", "->", "Option", "<", "i32", ">", "v1", "self", ">>", "3", "match", "MDL_TO_OL", "v1", "as", "usize", "XX", "=>", "None", "v2", "=>", "Some(", "self", "as", "i32", "-", "v2", "as", "i32", "<<", "3"] := by decide +kernel
+
 end Chrono.Pins.C04
